@@ -383,9 +383,9 @@ Lemma free1_frel ex st i :
 Proof.
   intros F Hi Fi Ei. destruct (free1_spec ex st i F Hi Fi Ei) as (F' & N' & SC & Fr & Ed & Dt & Ad & Vi).
   split; auto. split; auto. intros v. destruct (Nat.eq_dec v i) as [->|Ne].
-  - rewrite Fr, Ed, Dt, Fi, Ad, Vi. repeat split; auto. cbv iota. lia.
+  - rewrite Fr, Ed, Dt, Fi, Ad, Vi. repeat split; auto; cbv iota; try lia. intros _. right; left; auto.
   - destruct (SC v Ne) as (Sf & Se & Sd & Sa & Sv). rewrite Sf, Se, Sd, Sa, Sv. repeat split; auto.
-    + intros [H|[H|[]]]; auto. congruence.
+    + intros [H|[H|[]]]; auto; congruence.
     + destruct (freed (get st v)) eqn:Fv; auto. eapply freed_edges_nil; eauto.
     + destruct (freed (get st v)); lia.
 Qed.
@@ -417,3 +417,133 @@ Proof.
       * apply (frel_trans [i] t _ _ _ R1 R').
       * intros All. rewrite All in Fi by (left; auto). discriminate.
 Qed.
+
+Lemma check_zero_ok st W : (forall i, In i W -> rc (get st i) = 0) -> check_zero st W = Ok st.
+Proof.
+  induction W as [|i t IH]; intros H; cbn [check_zero]; auto.
+  rewrite (H i) by (left; auto). cbn [Nat.eqb]. apply IH. intros; apply H; right; auto.
+Qed.
+
+(* ---- the state after the collect_white loop ---- *)
+Section AfterWhite.
+  Variable ex : nat -> nat.
+  Variables st0 stm st2 st3 : gstate.
+  Variable W : list nat.
+  Hypothesis G : GI ex st0.
+  Hypothesis P : PM st0 stm.
+  Hypothesis S2 : PS stm st2.
+  Hypothesis C : CL (with_roots st2 []) (roots st2) W st3.
+  Let F := gi_fi _ _ G.
+  Let n := nobjs st0.
+
+  Lemma aw_n : nobjs st3 = n.
+  Proof. rewrite (c_n _ _ _ _ C). change (nobjs (with_roots st2 [])) with (nobjs st2). rewrite (ps_n _ _ S2). apply (pm_n _ _ P). Qed.
+
+  Lemma aw_obj v : scab (get st0 v) (get st3 v) /\ adj (get st3 v) = 0.
+  Proof.
+    destruct (c_obj _ _ _ _ C v) as (A & B). change (get (with_roots st2 []) v) with (get st2 v) in *.
+    destruct (ps_obj _ _ S2 v) as (A2 & _ & B2). split; [|congruence].
+    eapply scab_trans; [apply (pm_obj _ _ P)|]. eapply scab_trans; eauto.
+  Qed.
+
+  Lemma aw_edges v : edges (get st3 v) = edges (get st0 v).
+  Proof. destruct (aw_obj v) as ((_ & _ & _ & X & _) & _). auto. Qed.
+  Lemma aw_freed v : freed (get st3 v) = freed (get st0 v).
+  Proof. destruct (aw_obj v) as ((X & _) & _). auto. Qed.
+  Lemma aw_rc v : rc (get st3 v) = rc (get st0 v).
+  Proof. destruct (aw_obj v) as ((_ & X & _) & _). auto. Qed.
+
+  Lemma aw_edges2 v : edges (get st2 v) = edges (get st0 v).
+  Proof.
+    destruct (ps_obj _ _ S2 v) as ((_ & _ & _ & X & _) & _). rewrite X. apply (pm_edges _ _ P).
+  Qed.
+
+  Lemma rs_sub r : In r (roots st2) -> In r (roots st0) /\ col (get stm r) = Gray.
+  Proof. rewrite (ps_rts _ _ S2). apply (pm_roots _ _ P). Qed.
+
+  (* every white object has been collected *)
+  Lemma aw_nowhite v : col (get st3 v) <> White.
+  Proof.
+    intros W3.
+    assert (W2 : col (get st2 v) = White).
+    { destruct (c_col _ _ _ _ C v) as [X|(_ & X & _)]; [|congruence].
+      change (get (with_roots st2 []) v) with (get st2 v) in X. congruence. }
+    destruct (ps_white _ _ S2 v W2) as (Gv & _).
+    destruct (pm_sound _ _ P v Gv) as (r & Hr & Rr).
+    rewrite <- (ps_rts _ _ S2) in Hr.
+    assert (K : forall a b, reach (E st0) a b -> col (get st2 b) = White ->
+                 col (get st3 a) <> White -> col (get st3 b) <> White).
+    { intros a b R. induction R as [|u t x Hin R IH]; auto. intros Wx NWu. apply (IH Wx).
+      pose proof (white_back ex st0 stm st2 G P S2 u x (reach_step _ _ _ _ Hin R) Wx) as Wu.
+      destruct (c_col _ _ _ _ C u) as [X|(_ & _ & Cl)].
+      - change (get (with_roots st2 []) u) with (get st2 u) in X. congruence.
+      - apply Cl. change (get (with_roots st2 []) u) with (get st2 u). rewrite aw_edges2. exact Hin. }
+    apply (K r v Rr W2); auto. apply (c_done _ _ _ _ C r). exact Hr.
+  Qed.
+
+  Lemma aw_W v : In v W <-> col (get st2 v) = White.
+  Proof.
+    rewrite (c_white _ _ _ _ C v). change (get (with_roots st2 []) v) with (get st2 v).
+    split; [intros (A & _); auto|intros A; split; [auto|apply aw_nowhite]].
+  Qed.
+
+  Lemma aw_col v : (col (get stm v) = Gray /\ col (get st3 v) = Black) \/
+                   (col (get stm v) <> Gray /\ col (get st3 v) = col (get st0 v)).
+  Proof.
+    destruct (color_eqb (col (get stm v)) Gray) eqn:Cg.
+    - apply color_eqb_eq in Cg. left. split; auto.
+      destruct (c_col _ _ _ _ C v) as [X|(_ & X & _)]; auto.
+      change (get (with_roots st2 []) v) with (get st2 v) in X.
+      destruct (ps_in _ _ S2 v Cg) as [Y|Y]; [|congruence].
+      exfalso. apply (aw_nowhite v). congruence.
+    - apply color_eqb_neq in Cg. right. split; auto.
+      destruct (c_col _ _ _ _ C v) as [X|(X & _)]; change (get (with_roots st2 []) v) with (get st2 v) in X.
+      + rewrite X, (ps_out _ _ S2 v Cg). destruct (pm_col _ _ P v); congruence.
+      + destruct (ps_white _ _ S2 v X). contradiction.
+  Qed.
+
+  Lemma aw_buf v : freed (get st0 v) = false \/ col (get st3 v) = Purple -> v < n ->
+    buffered (get st3 v) = true -> col (get st3 v) = Purple /\ ~ In v (roots st0) /\ buffered (get st0 v) = true.
+  Proof.
+    intros Hyp Hv Bv.
+    assert (NR : ~ In v (roots st2)).
+    { intros Hr. rewrite (c_b1 _ _ _ _ C v) in Bv; [discriminate|auto]. }
+    rewrite (c_b2 _ _ _ _ C v) in Bv by auto.
+    change (get (with_roots st2 []) v) with (get st2 v) in Bv.
+    destruct (ps_obj _ _ S2 v) as (_ & B2 & _). rewrite B2 in Bv.
+    rewrite (ps_rts _ _ S2) in NR.
+    destruct (in_dec Nat.eq_dec v (roots st0)) as [I0|I0].
+    { rewrite (pm_b1 _ _ P v I0 NR) in Bv. discriminate. }
+    rewrite (pm_b2 _ _ P v (or_introl I0)) in Bv.
+    destruct Hyp as [Fv|Pv].
+    - exfalso. apply I0. apply (fi_buf _ _ _ F v Hv Fv Bv).
+    - auto.
+  Qed.
+
+  Lemma aw_FIt : FIt ex st3 [].
+  Proof.
+    constructor.
+    - rewrite aw_n. apply (fi_exr _ _ _ F).
+    - intros u t Hu Hin. rewrite aw_n in *. rewrite aw_edges in Hin. apply (fi_eir _ _ _ F u t Hu Hin).
+    - intros v Hv. rewrite aw_n in Hv. rewrite aw_rc, (fi_rc _ _ _ F v Hv).
+      rewrite (in_edges_ext st0 st3 v aw_n aw_edges). reflexivity.
+    - intros v Hv Fv. rewrite aw_n in Hv. rewrite aw_freed in Fv. rewrite aw_edges. apply (fi_freed _ _ _ F v Hv Fv).
+    - intros v. destruct (aw_obj v) as ((_ & _ & X & _) & Y). rewrite X. split; auto. apply (fi_adj _ _ _ F).
+    - rewrite (c_tbf _ _ _ _ C). change (to_be_freed (with_roots st2 [])) with (to_be_freed st2).
+      rewrite (ps_tbf _ _ S2). apply (pm_tbf _ _ P).
+    - rewrite (c_roots _ _ _ _ C). constructor.
+    - intros r Hr. rewrite (c_roots _ _ _ _ C) in Hr. destruct Hr.
+    - intros v Hv Fv Bv. exfalso. rewrite aw_n in Hv. rewrite aw_freed in Fv.
+      destruct (aw_buf v (or_introl Fv) Hv Bv) as (_ & I0 & B0). apply I0. apply (fi_buf _ _ _ F v Hv Fv B0).
+    - intros v. destruct (aw_col v) as [(_ & X)|(_ & X)]; [auto|rewrite X; apply (fi_col _ _ _ F)].
+    - intros v Pv. destruct (aw_col v) as [(_ & X)|(NG & X)]; [congruence|].
+      rewrite X in Pv. pose proof (fi_purple _ _ _ F v Pv) as B0.
+      assert (I0 : ~ In v (roots st0)).
+      { intros I0. apply NG. apply (pm_purple _ _ P v I0 Pv). }
+      assert (NR : ~ In v (roots st2)).
+      { intros Hr. apply I0. apply (rs_sub v Hr). }
+      rewrite (c_b2 _ _ _ _ C v NR). change (get (with_roots st2 []) v) with (get st2 v).
+      destruct (ps_obj _ _ S2 v) as (_ & -> & _). rewrite (pm_b2 _ _ P v (or_introl I0)). auto.
+    - intros t [].
+  Qed.
+End AfterWhite.
